@@ -1,4 +1,4 @@
-import HqModel.Props.Sys
+import HqModel.Props.SysW
 import HqModel.Props.WorkerSide
 import HqModel.Props.C13
 /-!
